@@ -165,7 +165,9 @@ class Dnf(walkers.dag.DagWalker):
             big_conjunction = [lit for conj in conj_list for lit in conj]
             simp = self._simplifier.simplify(self.manager.And(big_conjunction))
             if simp.is_true():
-                return []
+                # a tautological conjunct makes the whole disjunction true:
+                # one empty conjunction (an empty list of conjunctions would be False)
+                return [[]]
             elif simp.is_false():
                 pass
             elif simp.is_and():
